@@ -42,7 +42,11 @@ class HarnessModelError(Exception):
 
     def __init__(self, *args: Any) -> None:
         super().__init__(*args)
-        MODEL_ERROR_LOG.append(str(args[0])[:300] if args else "")
+        msg: Any = args[0] if args else ""
+        # the log is read outside the solver's state space: never keep a symbolic value in it
+        if type(msg).__name__ != "str" or hasattr(msg, "__ch_realize__"):
+            msg = "<message rendered from symbolic values>"
+        MODEL_ERROR_LOG.append(msg[:300])
 
 
 def harness_side(e: BaseException) -> str:
